@@ -20,6 +20,16 @@ def block(name, body):
 block('FIXED', '\n'.join('* ' + l for l in fix))
 block('FINDINGS', '\n'.join('* ' + l for l in find))
 block('MATRIX', '\n'.join(rows))
+lv = json.load(open(os.path.join(V, 'levels.json')))
+prow = ['| property | parts (flavour, cases planned in the quick tier, evaluations of the last quick run) | deciding technique |', '|---|---|---|']
+for pid in sorted(lv):
+    ep = os.path.join(V, 'evidence', pid + '.json')
+    parts = ''
+    if os.path.exists(ep):
+        ev = json.load(open(ep))
+        parts = '; '.join('%s (%s, %d cases, %d evaluations)' % (k, v.get('flavour'), v.get('cases_planned', 0), v.get('evaluations', 0)) for k, v in ev['coverage'].get('parts', {}).items())
+    prow.append('| %s | %s | %s |' % (pid, parts, lv[pid].get('technique', '')))
+block('PARTS', '\n'.join(prow))
 d = re.sub(r'<!-- NSEEDED -->\d+', '<!-- NSEEDED -->%d' % n, d)
 d = re.sub(r'<!-- NFIXED -->\d+', '<!-- NFIXED -->%d' % len(fix), d)
 open(os.path.join(V, 'DESIGN.md'), 'w').write(d)
